@@ -359,7 +359,7 @@ CHECKS = {
                      'most one element (single use / pull order of iterators: C12, C20)'],
     ),
     'C16': dict(
-        spec=['FpVerif.Spec.C16', 'FpVerif.Spec.C16Stack', 'FpVerif.Spec.C16Facts', 'FpVerif.Spec.C01Fn'],
+        spec=['FpVerif.Spec.C16', 'FpVerif.Spec.C16Stack', 'FpVerif.Spec.C16Facts', 'FpVerif.Spec.C01Fn', 'FpVerif.Spec.C16Panic', 'FpVerif.Spec.C16PanicEval'],
         facts=facts_factx,
         harnesses=[H('eval', 'oracle_eval', 4000, 200000, spec_level=True,
                      extra=dict(quick=['-deep', '2000000'], thorough=['-deep', '20000000'])),
@@ -369,7 +369,9 @@ CHECKS = {
                    H('fn', 'oracle_fn', 2000, 100000, spec_level=True, extra=dict(quick=['-focus', 'memo'], thorough=['-focus', 'memo'])),
                    # the deferred REST handed to FoldRight's step function (iterator/seq/list) is a memoised TailCall: forced twice, evaluated once;
                    # memoised list cells (Spec/C12List.started_at_most_once) are exercised by the same harness
-                   H('iter', 'oracle_iter', 2000, 200000, spec_level=True, project=project_iter, extra=dict(quick=['-prop', 'C12'], thorough=['-prop', 'C12']))],
+                   H('iter', 'oracle_iter', 2000, 200000, spec_level=True, project=project_iter, extra=dict(quick=['-prop', 'C12'], thorough=['-prop', 'C12'])),
+                   # memoised / deferred computations whose thunk panics or changes behaviour between executions (work package ONCEPANIC)
+                   H('memopanic', 'oracle_memopanic', 20000, 20000, spec_level=True)],
         level='proof',
         level_note='trusted: Lean kernel (propext/Classical.choice/Quot.sound only); model fidelity checked by correspondence; '
                    'sync.Once trusted to give the blocking exactly-once semantics modelled in Model/Memo.lean. Call DEPTH (number of logical frames) of '
@@ -381,10 +383,10 @@ CHECKS = {
                    'logical call, the two frames of sync.Once.Do (Do -> doSlow, Go 1.23).',
         modelled='lazy/lazy.go (Eval, Resume, Run loop with fuel, FlatMap, Map, Map2, Done, Call, TailCall, TailCallN as TailCall) with '
                  'logging thunks; Memoize as a Once-guarded cell under arbitrary interleavings; facts: Call/TailCall/MakeList route through '
-                 'Memoize, every Memoize uses sync.Once. Panicking thunks are not modelled. Model/EvalStack.lean: the same code with one frame per Go call '
+                 'Memoize, every Memoize uses sync.Once. Panicking / effectful thunks: Model/MemoPanic.lean (the Once-guarded cell with a thunk f : Nat -> GoM T, f k = k-th execution; sequential get/getN/getArgs for lazy.Memoize, fp.Memoize, fn1.Memoize; concurrent machine with the atomic steps of sync.Once (fast-path load, Lock, second load, f, deferred done.Store, deferred Unlock), any number of goroutines x calls, outcome value | panic), Model/EvalPanic.lean (lazy.Eval with the memo cells of Call / TailCall in a heap: Get repeated, shared sub-terms, thunks that log, panic and allocate), Model/ListPanic.lean (fp.MakeList head / tail cells, list.GenerateFrom, list.Recurrence1 after a panicking thunk: None / nil interface). Spec/C16Panic.lean (21 theorems: getN_fresh, getN_panicking, getArgs_fresh, once_runs_le_one, once_answered_after_f, once_returns_agree, once_panic_at_most_one, once_panic_is_runners, once_fair_quiescent, once_complete_panic_exactly_one, two mutant theorems), Spec/C16PanicEval.lean (14 theorems: evalp_run_once / listp_run_once for every client program, call_get_then_get, tailCall_panics_get_then_get, makeList_head_panics, makeList_tail_panics …); memopanic harness: real lazy.Memoize, fp.Memoize, fn1.Memoize, lazy.Call, TailCall, TailCall1..9, Map/FlatMap/Map2 compositions, fp.MakeList / list.Generate / GenerateFrom / Recurrence1 cells with thunks whose second execution would differ from the first; real-goroutine runs compared on their schedule-independent summary; direct checks (execution counter, no answer before the thunk finished, equal answers, termination) for 21 kinds of memoised thing. Model/EvalStack.lean: the same code with one frame per Go call '
                  '(Run, Resume, the closure Resume returns, firstFunc/getNextFunc, Memoize closure -> Once.Do -> doSlow -> closure -> f, FlatMap wrapper closure, Map/Map2 closures, '
                  'TailCallN closure, Get -> Run).',
-        assumptions=['thunks may log but do not panic', 'sync.Once semantics as in Model/Memo.lean'],
+        assumptions=['sync.Once semantics as in Model/Memo.lean'] + ['sync.Once (Go 1.23): Do = fast-path atomic load, doSlow = Lock; second load; defer done.Store(1); f(); defer Unlock — the six atomic steps of Model/MemoPanic.step; the mutex is fair enough that a released Lock() is eventually acquired (liveness theorems quantify over fair schedules)', 'a thunk is a function of the number of its execution (Nat -> GoM T): it may log, panic and change behaviour between executions, but it does not itself request the memo it is computing (a re-entrant request deadlocks in sync.Once; not modelled) and Eval / list thunks do not force other cells while they build their result', 'panic values are compared by their canonical rendering; a nil-pointer dereference is the single value "nil-deref"'],
     ),
     'C17': dict(
         # Spec.C17: the hand-written core (Get/Put/Modify/FlatMap/FoldM/Concat/Recover*); Spec.C01 + C01Inst: the generated
